@@ -1,4 +1,5 @@
 import MicroHttp.Props.C10
+import MicroHttp.Props.C10Reap
 import MicroHttp.Props.Tables
 import MicroHttp.Props.C10History
 #print axioms MicroHttp.C10.inv_new
@@ -18,6 +19,8 @@ import MicroHttp.Props.C10History
 #print axioms MicroHttp.C10.step_inv
 #print axioms MicroHttp.C10.history_inv
 #print axioms MicroHttp.C10.reachable
+#print axioms MicroHttp.C10.reaped_throughout
+#print axioms MicroHttp.C10.refused_throughout
 #print axioms MicroHttp.Tables.no_shared_state
 #print axioms MicroHttp.Tables.no_interior_mutability
 #print axioms MicroHttp.Tables.server_new
